@@ -1,24 +1,1108 @@
-//! C09 — not implemented yet (stub so that the registry compiles).
+//! C09 — input chords (defchords "v1" groups and defchordsv2 entries) fire for exactly the pressed
+//! key set, in any press order.
+//!
+//! Oracle (rules written from the configuration guide, boundary conventions calibrated on the tree,
+//! DESIGN appendix A: a v1 chord completes iff every further participant arrives < T after the
+//! first, a v2 chord iff <= T):
+//!  * accounting (every scenario and every random history): every key press is accounted for exactly
+//!    once — either by the key's own output or as a participant of exactly one fired chord whose
+//!    participants were all pressed; nothing else is output, individually delivered keys keep their
+//!    press order, nothing stays down, kanata returns to idle;
+//!  * positive scenarios (exactly the keys of a defined, enabled chord pressed within its window,
+//!    from idle, every order): that chord's witness key is pressed exactly once, released per the
+//!    release rule (v1: all participants released; v2: first-release / all-released) and not later
+//!    than that plus the measured slack;
+//!  * a chord never fires when its participants' presses span more than its window, nor on a layer
+//!    where it is disabled;
+//!  * v1: key sets that are no chord are decomposed greedily into the largest defined sub-chords in
+//!    press order;
+//!  * parser: participating key sets are unique regardless of the order they are written in.
 
+use crate::core::rng::Rng;
+use crate::core::sim::{code_name, osc, render_hist, Ev, OutKind, Sim};
 use crate::core::{CaseOut, Check, Ctx};
+use crate::gen::hist;
+use serde_json::{json, Value};
+use std::collections::VecDeque;
 
 pub struct C09Check;
 pub static C09: C09Check = C09Check;
+
+const KEYS: [&str; 5] = ["a", "b", "c", "d", "e"];
+const XKEY: &str = "x";
+const WIT: [&str; 6] = ["1", "2", "3", "4", "5", "6"];
+const R_DELAY: u32 = 5;
+
+struct Table {
+    name: &'static str,
+    nkeys: usize,
+    chords: &'static [u8],
+    t: u32,
+}
+
+const TABLES: &[Table] = &[
+    Table { name: "pair", nkeys: 2, chords: &[0b00011], t: 12 },
+    Table { name: "sub+super", nkeys: 3, chords: &[0b00011, 0b00111], t: 12 },
+    Table { name: "overlap", nkeys: 3, chords: &[0b00011, 0b00110], t: 25 },
+    Table { name: "triple", nkeys: 3, chords: &[0b00111], t: 12 },
+    Table { name: "two-triples", nkeys: 4, chords: &[0b00111, 0b01011], t: 12 },
+    Table { name: "pairs+quad", nkeys: 4, chords: &[0b00011, 0b01100, 0b01111], t: 25 },
+    Table { name: "chain", nkeys: 4, chords: &[0b00011, 0b00111, 0b01111], t: 12 },
+    Table { name: "five", nkeys: 5, chords: &[0b11111, 0b00011, 0b11000, 0b01110], t: 12 },
+];
+
+#[derive(Clone, Debug)]
+struct Conf {
+    v2: bool,
+    table: usize,
+    /// v2: 0 = all chords all-released, 1 = all first-release
+    release: u8,
+    /// v2: run on layer l2 where chords with an even index are disabled
+    on_l2: bool,
+    /// every chord action additionally taps a virtual key whose macro types a counter key of its
+    /// own, so that the number of times the action was performed is visible in the OS stream
+    counting: bool,
+}
+
+const COUNTERS: [&str; 4] = ["p", "q", "r", "s"];
+
+fn configs() -> Vec<Conf> {
+    let mut v = vec![];
+    for table in 0..TABLES.len() {
+        v.push(Conf { v2: false, table, release: 0, on_l2: false, counting: false });
+        for release in 0..2 {
+            for on_l2 in [false, true] {
+                v.push(Conf { v2: true, table, release, on_l2, counting: false });
+            }
+        }
+        v.push(Conf { v2: false, table, release: 0, on_l2: false, counting: true });
+        v.push(Conf { v2: true, table, release: 0, on_l2: false, counting: true });
+    }
+    v
+}
+
+fn mask_keys(m: u8) -> Vec<usize> {
+    (0..5).filter(|i| m >> i & 1 == 1).collect()
+}
+
+impl Conf {
+    fn tb(&self) -> &'static Table {
+        &TABLES[self.table]
+    }
+    fn label(&self) -> String {
+        if self.v2 {
+            format!("v2|{}|{}|{}{}", self.tb().name, if self.release == 0 { "all-released" } else { "first-release" }, if self.on_l2 { "l2" } else { "base" }, if self.counting { "|counting" } else { "" })
+        } else {
+            format!("v1|{}{}", self.tb().name, if self.counting { "|counting" } else { "" })
+        }
+    }
+    fn disabled(&self, chord_idx: usize) -> bool {
+        self.v2 && self.on_l2 && chord_idx % 2 == 0
+    }
+    fn first_release(&self) -> bool {
+        self.v2 && self.release == 1
+    }
+    fn text(&self) -> String {
+        let tb = self.tb();
+        // participants are written in descending order for odd chords: the written order must not matter
+        let keylist = |ci: usize, m: u8| {
+            let mut ks: Vec<&str> = mask_keys(m).into_iter().map(|k| KEYS[k]).collect();
+            if ci % 2 == 1 || ks.len() > 2 {
+                ks.reverse();
+            }
+            if ks.len() > 3 {
+                ks.swap(0, 2);
+            }
+            ks.join(" ")
+        };
+        let action = |ci: usize| if self.counting { format!("(multi {} (on-press tap-vkey c{ci}))", WIT[ci]) } else { WIT[ci].to_string() };
+        let vkeys = if self.counting {
+            format!("(defvirtualkeys {})\n", (0..tb.chords.len()).map(|ci| format!("c{ci} (macro {})", COUNTERS[ci])).collect::<Vec<_>>().join(" "))
+        } else {
+            String::new()
+        };
+        if self.v2 {
+            let mut s = format!(
+                "(defcfg process-unmapped-keys yes concurrent-tap-hold yes)\n(defsrc {k} {XKEY} n m)\n(deflayer base {k} {XKEY} (layer-switch l2) (layer-switch base))\n(deflayer l2 {k} {XKEY} (layer-switch l2) (layer-switch base))\n(defchordsv2\n",
+                k = KEYS.join(" ")
+            );
+            for (ci, m) in tb.chords.iter().enumerate() {
+                s.push_str(&format!(
+                    "  ({}) {} {} {} ({})\n",
+                    keylist(ci, *m),
+                    action(ci),
+                    tb.t,
+                    if self.release == 0 { "all-released" } else { "first-release" },
+                    if ci % 2 == 0 { "l2" } else { "" }
+                ));
+            }
+            s.push_str(")\n");
+            s.push_str(&vkeys);
+            s
+        } else {
+            let acts: Vec<String> = (0..5).map(|k| if k < tb.nkeys { format!("(chord g {})", KEYS[k]) } else { KEYS[k].to_string() }).collect();
+            let mut s = format!("(defcfg process-unmapped-keys yes)\n(defsrc {} {XKEY})\n(deflayer base {} {XKEY})\n(defchords g {}\n", KEYS.join(" "), acts.join(" "), tb.t);
+            for k in 0..tb.nkeys {
+                s.push_str(&format!("  ({}) {}\n", KEYS[k], KEYS[k]));
+            }
+            for (ci, m) in tb.chords.iter().enumerate() {
+                s.push_str(&format!("  ({}) {}\n", keylist(ci, *m), action(ci)));
+            }
+            s.push_str(")\n");
+            s.push_str(&vkeys);
+            s
+        }
+    }
+}
+
+// ------------------------------------------------------------------------------------------------
+// scenarios
+
+#[derive(Clone, Debug)]
+struct Scen {
+    /// (key, gap before the press); first gap 0
+    presses: Vec<(usize, u32)>,
+    /// (key, gap before the release); the first gap is the hold time after the last press
+    releases: Vec<(usize, u32)>,
+}
+
+impl Scen {
+    fn hist(&self) -> Vec<Ev> {
+        let mut h = vec![];
+        for (k, g) in &self.presses {
+            if *g > 0 {
+                h.push(Ev::T(*g));
+            }
+            h.push(Ev::P(osc(KEYS[*k])));
+        }
+        for (k, g) in &self.releases {
+            if *g > 0 {
+                h.push(Ev::T(*g));
+            }
+            h.push(Ev::R(osc(KEYS[*k])));
+        }
+        h
+    }
+}
+
+fn factorial(n: usize) -> u64 {
+    (1..=n as u64).product::<u64>().max(1)
+}
+
+fn nth_perm(items: &[usize], mut idx: u64) -> Vec<usize> {
+    let mut pool = items.to_vec();
+    let mut out = vec![];
+    for i in (1..=pool.len()).rev() {
+        let f = factorial(i - 1);
+        let j = (idx / f) as usize;
+        idx %= f;
+        out.push(pool.remove(j));
+    }
+    out
+}
+
+const N_HOLD: u64 = 2;
+const N_RELGAP: u64 = 2;
+
+fn scen_space(n: usize) -> u64 {
+    factorial(n) * 5u64.pow(n as u32 - 1) * factorial(n) * N_HOLD * N_RELGAP
+}
+
+fn make_scen(keys: &[usize], t: u32, mut idx: u64) -> Scen {
+    let n = keys.len();
+    let gaps = [0u32, 1, t - 1, t, t + 1];
+    let pp = idx % factorial(n);
+    idx /= factorial(n);
+    let mut g = vec![];
+    for _ in 1..n {
+        g.push(gaps[(idx % 5) as usize]);
+        idx /= 5;
+    }
+    let rp = idx % factorial(n);
+    idx /= factorial(n);
+    let hold = [1u32, t + 3][(idx % N_HOLD) as usize];
+    idx /= N_HOLD;
+    let relgap = [0u32, 2][(idx % N_RELGAP) as usize];
+    let porder = nth_perm(keys, pp);
+    let rorder = nth_perm(keys, rp);
+    Scen {
+        presses: porder.iter().enumerate().map(|(i, k)| (*k, if i == 0 { 0 } else { g[i - 1] })).collect(),
+        releases: rorder.iter().enumerate().map(|(i, k)| (*k, if i == 0 { hold } else { relgap })).collect(),
+    }
+}
+
+/// the exhaustive work list of a configuration: (subset mask, number of scenarios, total space)
+fn work(ctx: &Ctx, c: &Conf) -> Vec<(u8, u64, u64)> {
+    let tb = c.tb();
+    let kmax = ctx.tier.sel(3, 5);
+    let cap: u64 = ctx.tier.sel(u64::MAX, 300_000);
+    let mut v = vec![];
+    for m in 1u8..(1 << tb.nkeys) {
+        let n = m.count_ones() as usize;
+        if n > kmax {
+            continue;
+        }
+        let space = scen_space(n);
+        v.push((m, space.min(cap), space));
+    }
+    v
+}
+
+const STRIDE: u64 = 1_000_003;
+
+const CHUNK: u64 = 4096;
+
+#[derive(Clone, Debug)]
+enum CaseKind {
+    /// (config, first scenario, last scenario (exclusive)) in the concatenated work list
+    Exh(usize, u64, u64),
+    Random(usize),
+    ParserDup,
+}
+
+fn n_random(ctx: &Ctx) -> u64 {
+    ctx.tier.sel(400, 4000)
+}
+
+fn layout(ctx: &Ctx) -> Vec<CaseKind> {
+    let mut v = vec![];
+    for (ci, c) in configs().iter().enumerate() {
+        let tot: u64 = work(ctx, c).iter().map(|w| w.1).sum();
+        let mut s = 0;
+        while s < tot {
+            v.push(CaseKind::Exh(ci, s, (s + CHUNK).min(tot)));
+            s += CHUNK;
+        }
+    }
+    v.push(CaseKind::ParserDup);
+    v
+}
+
+// ------------------------------------------------------------------------------------------------
+// observation
+
+#[derive(Clone, Debug, PartialEq, Eq)]
+struct Obs {
+    at: u64,
+    down: bool,
+    /// 0..=4 individual key, 5 = x, 10+i = witness of chord i, 20+i = counter key of chord i, 255 = anything else
+    id: u8,
+    /// a chord activation seen in kanata's key state while the chord's witness key was already down
+    /// (invisible in the OS stream); only produced by the random-history driver
+    merged: bool,
+}
+
+struct Names {
+    keys: Vec<String>,
+    x: String,
+    wit: Vec<String>,
+    cnt: Vec<String>,
+}
+fn names() -> Names {
+    Names {
+        keys: KEYS.iter().map(|k| code_name(osc(k))).collect(),
+        x: code_name(osc(XKEY)),
+        wit: WIT.iter().map(|k| code_name(osc(k))).collect(),
+        cnt: COUNTERS.iter().map(|k| code_name(osc(k))).collect(),
+    }
+}
+
+fn v2_accepts(sim: &Sim) -> bool {
+    sim.k.layout.b().chords_v2.as_ref().map(|c| c.accepts_chords_chv2()).unwrap_or(true)
+}
+
+fn settle(sim: &mut Sim, min_ticks: u64, max_ticks: u64) -> bool {
+    let start = sim.now;
+    loop {
+        let quiet = sim.trace.last().map(|o| sim.now - o.at >= 3).unwrap_or(true);
+        if sim.now - start >= min_ticks && sim.is_idle() && sim.os.all_up() && v2_accepts(sim) && quiet {
+            return true;
+        }
+        if sim.now - start >= max_ticks {
+            return false;
+        }
+        sim.tick();
+    }
+}
+
+fn collect(sim: &Sim, base: u64, nm: &Names) -> (Vec<Obs>, Vec<String>) {
+    let mut outs = vec![];
+    let mut raw = vec![];
+    for o in &sim.trace {
+        let p = match o.kind {
+            OutKind::Down => "↓",
+            OutKind::Up => "↑",
+            _ => "?",
+        };
+        raw.push(format!("{p}{}@{}{}", o.name, o.at - base, if o.redundant { "(redundant)" } else { "" }));
+        if o.redundant {
+            continue;
+        }
+        let down = match o.kind {
+            OutKind::Down => true,
+            OutKind::Up => false,
+            _ => {
+                outs.push(Obs { at: o.at - base, down: true, id: 255, merged: false });
+                continue;
+            }
+        };
+        let id = if let Some(i) = nm.keys.iter().position(|n| *n == o.name) {
+            i as u8
+        } else if o.name == nm.x {
+            5
+        } else if let Some(i) = nm.wit.iter().position(|n| *n == o.name) {
+            10 + i as u8
+        } else if let Some(i) = nm.cnt.iter().position(|n| *n == o.name) {
+            20 + i as u8
+        } else {
+            255
+        };
+        outs.push(Obs { at: o.at - base, down, id: if o.repress { 254 } else { id }, merged: false });
+    }
+    (outs, raw)
+}
+
+// ------------------------------------------------------------------------------------------------
+// oracle
+
+#[derive(Clone, Debug)]
+struct InEv {
+    at: u64,
+    key: usize, // 0..=4, 5 = x
+    press: bool,
+}
+
+#[derive(Default)]
+struct Acct {
+    /// fired chords: (chord index, tick, arrival span of the accounted presses, arrivals of the matched presses)
+    fired: Vec<(usize, u64, u64, Vec<(usize, u64)>)>,
+    /// units in output order: individual key k -> k, chord i -> 10+i
+    units: Vec<u8>,
+    /// chord completions while the chord's witness key was still down (invisible in the OS stream)
+    merged: u64,
+    /// counter key presses per chord (counting configurations)
+    counted: [u64; 6],
+}
+
+/// Known on the unchanged tree (v2), one root cause with two triggers: a chord that completes in the
+/// processing pass in which its deadline is reached (completing press T-1 or T ticks after the first
+/// press), or in which a release of one of its keys is already queued, is activated twice.
+/// Everything else that performs an action twice is a different failure.
+fn twice_class(c: &Conf, acct: &Acct, ins: &[InEv], ci: usize) -> &'static str {
+    let t = c.tb().t as u64;
+    if !c.v2 {
+        return "action-performed-twice";
+    }
+    if acct.fired.iter().any(|f| f.0 == ci && (f.2 == t || f.2 + 1 == t)) {
+        return "action-performed-twice:completing-press-at-timeout";
+    }
+    for (fci, fat, _, arr) in &acct.fired {
+        if *fci != ci {
+            continue;
+        }
+        let first = arr.iter().map(|x| x.1).min().unwrap_or(0);
+        if ins.iter().any(|e| !e.press && e.at >= first && e.at < *fat && arr.iter().any(|(k, _)| *k == e.key)) {
+            return "action-performed-twice:release-queued-before-chord-fired";
+        }
+    }
+    "action-performed-twice"
+}
+
+/// The accounting oracle. Returns Err((class, description)) at the first inconsistency.
+fn accounting(c: &Conf, ins: &[InEv], obs: &[Obs]) -> Result<Acct, (&'static str, String)> {
+    let tb = c.tb();
+    let mut acct = Acct::default();
+    let mut unacc: Vec<VecDeque<(usize, u64)>> = vec![VecDeque::new(); 6];
+    let mut next_in = 0usize;
+    let mut last_individual: Option<usize> = None;
+    let mut down: Vec<u8> = vec![];
+    for o in obs {
+        while next_in < ins.len() && ins[next_in].at < o.at {
+            if ins[next_in].press {
+                unacc[ins[next_in].key].push_back((next_in, ins[next_in].at));
+            }
+            next_in += 1;
+        }
+        if (20..26).contains(&o.id) {
+            if !c.counting {
+                return Err(("unexpected-output", "counter key in a configuration without counters".into()));
+            }
+            if o.down {
+                acct.counted[(o.id - 20) as usize] += 1;
+            }
+            continue;
+        }
+        if o.id >= 254 {
+            return Err(("unexpected-output", format!("output #{} is neither a key of the scenario nor a chord action (or is a re-press of a key that is down)", acct.units.len())));
+        }
+        if !o.down {
+            if !down.contains(&o.id) {
+                return Err(("unexpected-output", "release of something that is not down".into()));
+            }
+            down.retain(|x| *x != o.id);
+            continue;
+        }
+        if o.merged {
+            acct.merged += 1;
+        } else {
+            down.push(o.id);
+        }
+        if o.id <= 5 {
+            let k = o.id as usize;
+            let is_chord_key = k < tb.nkeys;
+            // match the earliest unaccounted press of this key that keeps the delivery order
+            // monotone (an earlier press that was swallowed stays unaccounted and is reported at
+            // the end); if there is none, the earliest one (then the order did change)
+            let pos = unacc[k].iter().position(|(idx, _)| last_individual.map(|l| *idx > l).unwrap_or(true)).unwrap_or(0);
+            match unacc[k].remove(pos) {
+                Some((idx, _)) => {
+                    // only the relative order of individually delivered keys is required
+                    if let Some(l) = last_individual {
+                        if idx < l {
+                            return Err(("order-changed", format!("key {} was pressed before a key that was delivered earlier", KEYS.get(k).unwrap_or(&XKEY))));
+                        }
+                    }
+                    last_individual = Some(idx);
+                    let _ = is_chord_key;
+                }
+                None => return Err(("key-invented", format!("key {} output without an unaccounted press of it", KEYS.get(k).unwrap_or(&XKEY)))),
+            }
+            acct.units.push(o.id);
+        } else {
+            let ci = (o.id - 10) as usize;
+            let Some(m) = tb.chords.get(ci) else {
+                return Err(("unexpected-output", "witness of a chord that is not in the table".into()));
+            };
+            if c.disabled(ci) {
+                return Err(("fired-on-disabled-layer", format!("chord ({}) fired on a layer where it is disabled", mask_keys(*m).iter().map(|k| KEYS[*k]).collect::<Vec<_>>().join(" "))));
+            }
+            let mut arr = vec![];
+            for k in mask_keys(*m) {
+                match unacc[k].pop_front() {
+                    Some((_, a)) => arr.push((k, a)),
+                    None => {
+                        let cname = mask_keys(*m).iter().map(|k| KEYS[*k]).collect::<Vec<_>>().join(" ");
+                        if o.merged {
+                            // a second activation of the chord for the same presses
+                            return Err((twice_class(c, &acct, ins, ci), format!("chord ({cname}) was activated a second time without new presses of its keys (seen in kanata's key state at a new virtual coordinate)")));
+                        }
+                        return Err(("fired-without-all-participants", format!("chord ({cname}) fired although {} had no unaccounted press", KEYS[k])));
+                    }
+                }
+            }
+            let lo = arr.iter().map(|x| x.1).min().unwrap_or(0);
+            let hi = arr.iter().map(|x| x.1).max().unwrap_or(0);
+            acct.fired.push((ci, o.at, hi - lo, arr));
+            acct.units.push(o.id);
+        }
+    }
+    while next_in < ins.len() {
+        if ins[next_in].press {
+            unacc[ins[next_in].key].push_back((next_in, ins[next_in].at));
+        }
+        next_in += 1;
+    }
+    if !down.is_empty() {
+        return Err(("stuck", "a key is still down at the end".into()));
+    }
+    if c.counting {
+        for ci in 0..tb.chords.len() {
+            let fired = acct.fired.iter().filter(|f| f.0 == ci).count() as u64;
+            if acct.counted[ci] > fired {
+                return Err((twice_class(c, &acct, ins, ci), format!("{} fired {fired} time(s) but its action was performed {} times", unit_name(10 + ci as u8, tb), acct.counted[ci])));
+            }
+            if acct.counted[ci] < fired {
+                return Err(("action-not-performed", format!("{} fired {fired} time(s) but its action was performed {} times", unit_name(10 + ci as u8, tb), acct.counted[ci])));
+            }
+        }
+    }
+    for (k, q) in unacc.iter().enumerate() {
+        if let Some((_, a)) = q.front() {
+            // known on the unchanged tree (v2): a participant released and pressed again before the
+            // pending chord fired loses the second press (the chord consumes every queued press of
+            // its keys)
+            let repress_before_fire = c.v2 && acct.fired.iter().any(|(_, f, _, arr)| *f > *a && arr.iter().any(|(kk, ak)| *kk == k && *ak <= *a));
+            let class = if repress_before_fire { "key-swallowed:repress-before-pending-chord-fired" } else { "key-swallowed" };
+            return Err((class, format!("{} press(es) of {} produced neither the key nor a chord", q.len(), KEYS.get(k).unwrap_or(&XKEY))));
+        }
+    }
+    Ok(acct)
+}
+
+/// v1 reference: units fired for presses (key, arrival) that all precede the first release.
+/// Groups: a press joins the pending group iff it arrives < T after the group's first press; a group
+/// fires as soon as its key set is a chord with no defined strict superset, otherwise at its
+/// timeout / the first release, as its chord or greedily decomposed in press order.
+fn v1_expected(c: &Conf, presses: &[(usize, u64)]) -> Vec<u8> {
+    let tb = c.tb();
+    let t = tb.t as u64;
+    // all chords incl. the single-key ones: (mask, unit id)
+    let mut chords: Vec<(u8, u8)> = (0..tb.nkeys).map(|k| (1u8 << k, k as u8)).collect();
+    chords.extend(tb.chords.iter().enumerate().map(|(i, m)| (*m, 10 + i as u8)));
+    let get = |m: u8| chords.iter().find(|x| x.0 == m).map(|x| x.1);
+    let unamb = |m: u8| -> Option<u8> {
+        if chords.iter().any(|x| x.0 != m && x.0 & m == m) {
+            None
+        } else {
+            get(m)
+        }
+    };
+    let mut units = vec![];
+    let mut i = 0;
+    while i < presses.len() {
+        let start = presses[i].1;
+        let mut active = 1u8 << presses[i].0;
+        let mut order = vec![presses[i].0];
+        let mut j = i + 1;
+        let mut fired = false;
+        if let Some(u) = unamb(active) {
+            units.push(u);
+            fired = true;
+        }
+        while !fired && j < presses.len() && presses[j].1 - start < t {
+            active |= 1 << presses[j].0;
+            order.push(presses[j].0);
+            j += 1;
+            if let Some(u) = unamb(active) {
+                units.push(u);
+                fired = true;
+            }
+        }
+        if !fired {
+            if let Some(u) = get(active) {
+                units.push(u);
+            } else {
+                // greedy decomposition in press order
+                let mut s = 0;
+                while s < order.len() {
+                    let mut e = order.len();
+                    let mut found = false;
+                    while e > s {
+                        let m = order[s..e].iter().fold(0u8, |a, k| a | 1 << k);
+                        if let Some(u) = get(m) {
+                            units.push(u);
+                            found = true;
+                            break;
+                        }
+                        e -= 1;
+                    }
+                    s = if found { e } else { s + 1 };
+                }
+            }
+        }
+        i = j;
+    }
+    units
+}
+
+fn unit_name(u: u8, tb: &Table) -> String {
+    if u < 10 {
+        KEYS.get(u as usize).unwrap_or(&XKEY).to_string()
+    } else {
+        let m = tb.chords.get((u - 10) as usize).copied().unwrap_or(0);
+        format!("chord({})", mask_keys(m).iter().map(|k| KEYS[*k]).collect::<Vec<_>>().join(" "))
+    }
+}
+
+struct Verdict {
+    sig: Option<(String, String)>,
+    class: &'static str,
+    units: Vec<u8>,
+    expected: String,
+}
+
+fn judge_scen(c: &Conf, s: &Scen, obs: &[Obs], settled: bool) -> Verdict {
+    let tb = c.tb();
+    let ver = if c.v2 { "v2" } else { "v1" };
+    let mut v = Verdict { sig: None, class: "other", units: vec![], expected: String::new() };
+    // inputs with arrival ticks
+    let mut ins = vec![];
+    let mut t = 0u64;
+    for (k, g) in &s.presses {
+        t += *g as u64;
+        ins.push(InEv { at: t, key: *k, press: true });
+    }
+    let first_press = ins[0].at;
+    let last_press = t;
+    let mut rel_at = [0u64; 5];
+    for (k, g) in &s.releases {
+        t += *g as u64;
+        ins.push(InEv { at: t, key: *k, press: false });
+        rel_at[*k] = t;
+    }
+    let span = last_press - first_press;
+    let in_window = if c.v2 { span <= tb.t as u64 } else { span < tb.t as u64 };
+    let smask = s.presses.iter().fold(0u8, |a, (k, _)| a | 1 << k);
+    let exact = tb.chords.iter().position(|m| *m == smask);
+    // v2 at a span of exactly T: the tree completes the chord unless another press arrived exactly
+    // one tick before the deadline (then the deadline is evaluated one tick earlier). The guide does
+    // not decide that tick, so these scenarios are only judged by the other rules.
+    let v2_boundary = c.v2 && span == tb.t as u64 && ins.iter().filter(|e| e.press).any(|e| e.at - first_press == tb.t as u64 - 1);
+    v.class = match exact {
+        Some(ci) if c.disabled(ci) => "disabled-layer",
+        Some(_) if v2_boundary => "boundary-undetermined",
+        Some(_) if in_window => "positive",
+        Some(_) => "too-slow",
+        None => {
+            if tb.chords.iter().enumerate().any(|(ci, m)| !c.disabled(ci) && m & smask == smask) {
+                "incomplete"
+            } else if tb.chords.iter().any(|m| m & smask == *m) {
+                "undefined-superset"
+            } else {
+                "no-chord"
+            }
+        }
+    };
+    if !settled {
+        v.sig = Some((format!("C09:{ver}:stuck"), "kanata did not return to idle with every key up".into()));
+        return v;
+    }
+    let acct = match accounting(c, &ins, obs) {
+        Ok(a) => a,
+        Err((k, what)) => {
+            v.sig = Some((format!("C09:{ver}:{k}"), what));
+            return v;
+        }
+    };
+    v.units = acct.units.clone();
+    // a chord only fires if its participants arrived within its window
+    for (ci, _, sp, _) in &acct.fired {
+        let ok = if c.v2 { *sp <= tb.t as u64 } else { *sp < tb.t as u64 };
+        if !ok {
+            v.sig = Some((format!("C09:{ver}:fired-outside-window"), format!("{} fired although its participants' presses span {} ticks (timeout {})", unit_name(10 + *ci as u8, tb), sp, tb.t)));
+            return v;
+        }
+    }
+    // individually delivered keys are released after their physical release
+    let mut i = 0;
+    while i < obs.len() {
+        let o = &obs[i];
+        if !o.down && o.id < 5 && o.at <= rel_at[o.id as usize] {
+            v.sig = Some((format!("C09:{ver}:released-early"), format!("{} released before its physical release", KEYS[o.id as usize])));
+            return v;
+        }
+        i += 1;
+    }
+    // positive scenario: exactly that chord, once; release rule
+    if v.class == "positive" {
+        let ci = exact.unwrap_or(0);
+        v.expected = unit_name(10 + ci as u8, tb);
+        if acct.units != vec![10 + ci as u8] {
+            v.sig = Some((
+                format!("C09:{ver}:positive:not-fired"),
+                format!("all keys of {} pressed within the timeout but the outcome was [{}]", v.expected, acct.units.iter().map(|u| unit_name(*u, tb)).collect::<Vec<_>>().join(", ")),
+            ));
+            return v;
+        }
+    }
+    // release rule for fired chords (v1: only without decomposition, i.e. in positive scenarios)
+    if c.v2 || v.class == "positive" {
+        for (ci, at, _, arr) in &acct.fired {
+            let rels: Vec<u64> = arr.iter().map(|(k, _)| rel_at[*k]).collect();
+            let t_rule = if c.first_release() { rels.iter().copied().min().unwrap_or(0) } else { rels.iter().copied().max().unwrap_or(0) };
+            let up = obs.iter().find(|o| !o.down && o.id == 10 + *ci as u8 && o.at >= *at).map(|o| o.at);
+            let Some(up) = up else { continue };
+            let lo = (*at).max(t_rule + 1);
+            let slack = (R_DELAY + s.presses.len() as u32 + 4) as u64;
+            let hi = (*at).max(t_rule) + slack;
+            if up < lo {
+                v.sig = Some((format!("C09:{ver}:chord-released-early"), format!("{} released in tick {up}, before the release rule allows ({})", unit_name(10 + *ci as u8, tb), if c.first_release() { "first participant release" } else { "all participants released" })));
+                return v;
+            }
+            if up > hi {
+                // known on the unchanged tree (v2): the release can be delayed by up to the chord
+                // timeout; anything later than that is a different failure
+                let class = if c.v2 && up <= hi + tb.t as u64 + 2 { "chord-release-delayed-within-timeout" } else { "chord-released-late" };
+                v.sig = Some((format!("C09:{ver}:{class}"), format!("{} released in tick {up}, more than {slack} ticks after its release rule was met (tick {t_rule})", unit_name(10 + *ci as u8, tb))));
+                return v;
+            }
+        }
+    }
+    // v1 decomposition
+    if !c.v2 {
+        let pr: Vec<(usize, u64)> = ins.iter().filter(|e| e.press).map(|e| (e.key, e.at)).collect();
+        let exp = v1_expected(c, &pr);
+        v.expected = exp.iter().map(|u| unit_name(*u, tb)).collect::<Vec<_>>().join(", ");
+        if exp != acct.units {
+            v.sig = Some((
+                format!("C09:v1:decomposition"),
+                format!("expected [{}], observed [{}]", v.expected, acct.units.iter().map(|u| unit_name(*u, tb)).collect::<Vec<_>>().join(", ")),
+            ));
+            return v;
+        }
+    }
+    v
+}
+
+// ------------------------------------------------------------------------------------------------
+// running
+
+fn new_sim(c: &Conf) -> Result<Sim, String> {
+    let mut sim = Sim::new(&c.text())?;
+    if c.on_l2 {
+        sim.press(osc("n"));
+        sim.ticks(3);
+        sim.release(osc("n"));
+        settle(&mut sim, 30, 400);
+    }
+    Ok(sim)
+}
+
+fn run_scen(sim: &mut Sim, c: &Conf, s: &Scen, nm: &Names) -> (Vec<Obs>, Vec<String>, bool) {
+    sim.trace.clear();
+    sim.last_step_start = 0;
+    let base = sim.now;
+    let mut scan = VScan::default();
+    for (k, g) in &s.presses {
+        for _ in 0..*g {
+            sim.tick();
+            scan.after_tick(sim, base, nm);
+        }
+        sim.press(osc(KEYS[*k]));
+    }
+    for (k, g) in &s.releases {
+        for _ in 0..*g {
+            sim.tick();
+            scan.after_tick(sim, base, nm);
+        }
+        sim.release(osc(KEYS[*k]));
+    }
+    let min = (c.tb().t + R_DELAY + 8) as u64 + if c.counting { 12 } else { 0 };
+    let settled = settle_scan(sim, min, 600, &mut scan, base, nm);
+    let (o, r) = collect(sim, base, nm);
+    (scan.merge_into(o), r, settled)
+}
+
+fn parser_dup_case(out: &mut CaseOut) {
+    // the same key set written in two different orders must be rejected ("The list must be unique per chord")
+    let sets: [&[&str]; 4] = [&["a", "b"], &["a", "b", "c"], &["b", "c", "d"], &["a", "b", "c", "d"]];
+    for set in sets {
+        let items: Vec<usize> = (0..set.len()).collect();
+        for p in 1..factorial(set.len()) {
+            let perm = nth_perm(&items, p);
+            let k1 = set.join(" ");
+            let k2 = perm.iter().map(|i| set[*i]).collect::<Vec<_>>().join(" ");
+            let cfg = format!("(defcfg process-unmapped-keys yes concurrent-tap-hold yes)\n(defsrc a b c d)\n(deflayer base a b c d)\n(defchordsv2\n  ({k1}) 1 20 all-released ()\n  ({k2}) 2 20 all-released ()\n)\n");
+            out.inc("parser_permuted_duplicate_sets");
+            if Sim::new(&cfg).is_ok() {
+                out.violate(
+                    "C09:v2:permuted-duplicate-key-set-accepted",
+                    format!("({k1}) and ({k2}) are the same key set but both were accepted as different chords"),
+                    json!({"config": cfg, "history": "", "observed": "accepted", "expected": "rejected: participating key sets must be unique"}),
+                );
+                return;
+            }
+            // and the written order alone is accepted
+            let cfg1 = format!("(defcfg process-unmapped-keys yes concurrent-tap-hold yes)\n(defsrc a b c d)\n(deflayer base a b c d)\n(defchordsv2\n  ({k2}) 2 20 all-released ()\n)\n");
+            if Sim::new(&cfg1).is_err() {
+                out.violate(
+                    "C09:v2:key-order-rejected",
+                    format!("({k2}) rejected"),
+                    json!({"config": cfg1, "history": "", "observed": "rejected", "expected": "accepted"}),
+                );
+                return;
+            }
+        }
+    }
+}
+
+/// Watches kanata's key state for v2 chord activations (they live at virtual coordinates above
+/// KEY_MAX). An activation of a chord whose witness key is already down does not show in the OS
+/// stream; it is reported as a synthetic "merged" press so that the accounting can see it.
+#[derive(Default)]
+struct VScan {
+    present: Vec<u16>,
+    synth: Vec<Obs>,
+}
+impl VScan {
+    fn after_tick(&mut self, sim: &Sim, base: u64, nm: &Names) {
+        use kanata_keyberon::layout::State;
+        let mut now_present: Vec<u16> = vec![];
+        for st in sim.k.layout.b().states.iter() {
+            if let State::NormalKey { keycode, coord, .. } = st {
+                if coord.0 == 0 && coord.1 > 767 {
+                    now_present.push(coord.1);
+                    if !self.present.contains(&coord.1) {
+                        let name = format!("{:?}", keycode);
+                        if let Some(i) = nm.wit.iter().position(|n| *n == name) {
+                            // visible in the OS stream of this tick?
+                            let visible = sim.last().iter().any(|o| o.kind == OutKind::Down && o.name == name && !o.repress);
+                            if !visible {
+                                if std::env::var("KV_DEBUG").is_ok() { eprintln!("synth at {} coord {} last={:?} states={:?}", sim.now - base, coord.1, sim.last().iter().map(|o| o.short()).collect::<Vec<_>>(), sim.k.layout.b().states); }
+                                self.synth.push(Obs { at: sim.now - base, down: true, id: 10 + i as u8, merged: true });
+                            }
+                        }
+                    }
+                }
+            }
+        }
+        self.present = now_present;
+    }
+    fn merge_into(&self, obs: Vec<Obs>) -> Vec<Obs> {
+        if self.synth.is_empty() {
+            return obs;
+        }
+        let mut all = obs;
+        for s in &self.synth {
+            // after the outputs of the same tick (releases come first within a tick)
+            let pos = all.iter().position(|o| o.at > s.at).unwrap_or(all.len());
+            all.insert(pos, s.clone());
+        }
+        all
+    }
+}
+
+fn settle_scan(sim: &mut Sim, min_ticks: u64, max_ticks: u64, scan: &mut VScan, base: u64, nm: &Names) -> bool {
+    let start = sim.now;
+    loop {
+        let quiet = sim.trace.last().map(|o| sim.now - o.at >= 3).unwrap_or(true);
+        if sim.now - start >= min_ticks && sim.is_idle() && sim.os.all_up() && v2_accepts(sim) && quiet {
+            return true;
+        }
+        if sim.now - start >= max_ticks {
+            return false;
+        }
+        sim.tick();
+        scan.after_tick(sim, base, nm);
+    }
+}
+
+fn drive_random(sim: &mut Sim, h: &[Ev], tb: &Table, nm: &Names) -> (Vec<InEv>, Vec<Obs>, Vec<String>, bool) {
+    sim.trace.clear();
+    sim.last_step_start = 0;
+    let base = sim.now;
+    let mut ins = vec![];
+    let mut scan = VScan::default();
+    for e in h {
+        match e {
+            Ev::P(code) | Ev::R(code) => {
+                let key = if *code == osc(XKEY) { 5 } else { KEYS.iter().position(|k| osc(k) == *code).unwrap_or(5) };
+                ins.push(InEv { at: sim.now - base, key, press: matches!(e, Ev::P(_)) });
+                sim.apply(e);
+            }
+            Ev::T(n) => {
+                for _ in 0..*n {
+                    sim.tick();
+                    scan.after_tick(sim, base, nm);
+                }
+            }
+            _ => {}
+        }
+    }
+    let settled = settle_scan(sim, (tb.t + R_DELAY + 8) as u64, 800, &mut scan, base, nm);
+    let (obs, raw) = collect(sim, base, nm);
+    let obs = scan.merge_into(obs);
+    (ins, obs, raw, settled)
+}
+
+fn random_case(ctx: &Ctx, ridx: u64, out: &mut CaseOut) {
+    let mut rng = Rng::for_case(ctx.seed, "C09", "random", ridx);
+    let confs = configs();
+    let c = &confs[rng.usize(confs.len())];
+    let nm = names();
+    let cfg = c.text();
+    let tb = c.tb();
+    let Ok(mut sim) = new_sim(c) else {
+        out.inconclusive = Some("config rejected".into());
+        return;
+    };
+    let ver = if c.v2 { "v2" } else { "v1" };
+    let mut keys: Vec<u16> = (0..tb.nkeys).map(|k| osc(KEYS[k])).collect();
+    keys.push(osc(XKEY));
+    if tb.nkeys < 5 && rng.coin() {
+        keys.push(osc(KEYS[tb.nkeys]));
+    }
+    let gaps = [0u32, 1, 1, 2, 3, tb.t - 1, tb.t, tb.t + 1, 3 * tb.t];
+    for hi in 0..8 {
+        let n = 4 + rng.usize(30);
+        let h = hist::consistent(&mut rng, &keys, n, &gaps, false);
+        let (ins, obs, raw, settled) = drive_random(&mut sim, &h, tb, &nm);
+        out.inc("random_histories");
+        out.count("random_events", ins.len() as u64);
+        let mut sig: Option<(String, String)> = None;
+        if !settled {
+            sig = Some((format!("C09:{ver}:stuck"), "kanata did not return to idle with every key up".into()));
+        } else {
+            match accounting(c, &ins, &obs) {
+                Ok(a) => {
+                    out.count("random_chords_fired", a.fired.len() as u64);
+                    out.count("random_chord_completions_while_witness_down", a.merged);
+                    out.count("random_keys_individual", a.units.iter().filter(|u| **u < 10).count() as u64);
+                    if !a.fired.is_empty() {
+                        out.tag(format!("rnd|{}|{}", c.label(), a.units.iter().map(|u| u.to_string()).collect::<Vec<_>>().join(",").chars().take(40).collect::<String>()));
+                    }
+                }
+                Err((k, what)) => sig = Some((format!("C09:{ver}:{k}"), format!("(random history) {what}"))),
+            }
+        }
+        if let Some((sig, what)) = sig {
+            // confirm on a fresh instance
+            let mut confirmed = true;
+            if hi > 0 {
+                if let Ok(mut fresh) = new_sim(c) {
+                    let (i2, o2, _, st) = drive_random(&mut fresh, &h, tb, &nm);
+                    confirmed = !st || accounting(c, &i2, &o2).is_err();
+                }
+            }
+            if confirmed {
+                out.violate(sig, format!("{}: {what}", c.label()), json!({"config": cfg, "history": render_hist(&h), "observed": raw, "expected": "every press accounted for exactly once by its own key or by one fired chord; nothing else; everything released"}));
+            } else {
+                out.inc("random_mismatch_not_reproduced_on_fresh_instance");
+                out.inconclusive = Some("a mismatch on a re-used instance did not reproduce on a fresh one".into());
+            }
+            match new_sim(c) {
+                Ok(s2) => sim = s2,
+                Err(_) => return,
+            }
+        }
+    }
+}
 
 impl Check for C09Check {
     fn id(&self) -> &'static str {
         "C09"
     }
-    fn n_cases(&self, _ctx: &Ctx) -> u64 {
-        0
+    fn n_cases(&self, ctx: &Ctx) -> u64 {
+        layout(ctx).len() as u64 + n_random(ctx)
     }
-    fn run_case(&self, _ctx: &Ctx, _idx: u64) -> CaseOut {
-        CaseOut::new()
+    fn describe(&self, ctx: &Ctx, idx: u64) -> Value {
+        let lay = layout(ctx);
+        match lay.get(idx as usize) {
+            Some(CaseKind::Exh(ci, a, b)) => json!({"config": configs()[*ci].text(), "scenarios": format!("exhaustive scenarios #{a}..#{b}")}),
+            Some(CaseKind::ParserDup) => json!({"kind": "parser duplicate key sets"}),
+            _ => json!({"kind": "random histories", "index": idx - lay.len() as u64}),
+        }
+    }
+    fn run_case(&self, ctx: &Ctx, idx: u64) -> CaseOut {
+        let mut out = CaseOut::new();
+        let lay = layout(ctx);
+        let kind = match lay.get(idx as usize) {
+            Some(k) => k.clone(),
+            None => CaseKind::Random((idx - lay.len() as u64) as usize),
+        };
+        let (ci, a, b) = match kind {
+            CaseKind::ParserDup => {
+                parser_dup_case(&mut out);
+                return out;
+            }
+            CaseKind::Random(r) => {
+                random_case(ctx, r as u64, &mut out);
+                return out;
+            }
+            CaseKind::Exh(ci, a, b) => (ci, a, b),
+        };
+        let confs = configs();
+        let c = &confs[ci];
+        let tb = c.tb();
+        let nm = names();
+        let cfg = c.text();
+        let mut sim = match new_sim(c) {
+            Ok(s) => s,
+            Err(e) => {
+                out.inconclusive = Some(format!("config rejected: {}", e.lines().next().unwrap_or("")));
+                return out;
+            }
+        };
+        let wl = work(ctx, c);
+        let ver = if c.v2 { "v2" } else { "v1" };
+        let mut reported: std::collections::BTreeSet<String> = Default::default();
+        let mut off = 0u64;
+        for (m, cnt, space) in wl {
+            let lo = a.max(off);
+            let hi = b.min(off + cnt);
+            let mut i = lo;
+            while i < hi {
+                let local = i - off;
+                let sidx = if cnt < space { (local.wrapping_mul(STRIDE)) % space } else { local };
+                let keys = mask_keys(m);
+                let s = make_scen(&keys, tb.t, sidx);
+                let (obs, raw, settled) = run_scen(&mut sim, c, &s, &nm);
+                let mut v = judge_scen(c, &s, &obs, settled);
+                let mut raw = raw;
+                if v.sig.is_some() {
+                    // confirm on a fresh instance
+                    match new_sim(c) {
+                        Ok(mut fresh) => {
+                            let (o2, r2, st2) = run_scen(&mut fresh, c, &s, &nm);
+                            let v2 = judge_scen(c, &s, &o2, st2);
+                            if v2.sig.is_none() {
+                                out.inc("mismatch_not_reproduced_on_fresh_instance");
+                                out.inconclusive = Some("a mismatch on a re-used instance did not reproduce on a fresh one".into());
+                            }
+                            v = v2;
+                            raw = r2;
+                        }
+                        Err(_) => {}
+                    }
+                    if let Ok(s2) = new_sim(c) {
+                        sim = s2;
+                    }
+                }
+                out.inc("scenarios");
+                out.inc(&format!("{ver}_scenarios"));
+                out.inc(&format!("{ver}_class_{}", v.class));
+                if v.units.iter().any(|u| *u >= 10) {
+                    out.inc(&format!("{ver}_scenarios_with_chord_fired"));
+                }
+                if !c.v2 && v.class != "positive" && v.units.len() > 1 && v.units.iter().any(|u| *u >= 10) {
+                    out.inc("v1_decompositions_with_sub_chord");
+                }
+                out.tag(format!("{}|{:05b}|{}|{}", c.label(), m, v.class, v.units.iter().map(|u| u.to_string()).collect::<Vec<_>>().join(",")));
+                if let Some((sig, what)) = &v.sig {
+                    if reported.insert(sig.clone()) {
+                        out.violate(
+                            sig.clone(),
+                            format!("{} [{}] {}: {what}", c.label(), v.class, render_hist(&s.hist())),
+                            json!({"config": cfg, "history": render_hist(&s.hist()), "scenario_class": v.class, "observed": raw, "expected": v.expected, "note": "ticks are relative to the first press"}),
+                        );
+                    }
+                    if ctx.verbose {
+                        eprintln!("{sig}: {} -> {:?}", render_hist(&s.hist()), raw);
+                    }
+                }
+                if out.sample.is_none() && a == 0 && v.class == "positive" && s.presses.len() >= 3 && ci % 5 == 1 {
+                    out.sample = Some(json!({"config": cfg, "history": render_hist(&s.hist()), "class": v.class, "observed": raw}));
+                }
+                i += 1;
+            }
+            off += cnt;
+            if off >= b {
+                break;
+            }
+        }
+        out
     }
     fn rule(&self) -> String {
-        "not implemented".into()
+        "case = one configuration (8 chord tables over 2-5 participating keys: single pair, sub-chord + superset, overlapping pairs with an undefined superset, lone triple, two overlapping triples, pairs + quad, chain of 2/3/4, five-key chord with sub-chords; each as a defchords group with single-key chords and as defchordsv2 with all-released / first-release, on the base layer and on a layer where every other chord is disabled; participants written in non-sorted order) and a chunk of its scenario space: for every non-empty subset of the participating keys (quick: up to 3 keys, complete; thorough: up to 5 keys, spaces above 300 000 sampled with a fixed stride) every permutation of press order x every combination of inter-press gaps from {0,1,T-1,T,T+1} x every permutation of release order x hold {1,T+3} x inter-release gap {0,2}; plus random physically consistent histories mixing chord keys, a non-chord key and an unrelated key (accounting oracle only); plus one parser case (permuted duplicate key sets must be rejected). Non-trivial = scenario ran and was judged; distinct = (configuration, pressed subset, scenario class, sequence of fired units).".into()
     }
     fn assumptions(&self) -> Vec<String> {
-        vec![]
+        vec![
+            "all chords of a table share one timeout; scenarios start from idle with chord processing enabled (after the chords-v2-min-idle window), so no scenario straddles that window at its start; presses that fall into the window opened by an earlier non-chord activation of the same scenario are only judged by the accounting oracle".into(),
+            "window convention as measured (appendix A): v1 participants must arrive < T after the first, v2 <= T".into(),
+            "release slack: rapid-event-delay + number of keys + 4 ticks after the release rule is met".into(),
+            "v1 tables define a single-key chord for every participating key, so a vanished key is always a swallowed key; the v1 release rule is only judged for undecomposed chords (the guide calls the other cases implementation-defined)".into(),
+            "v2 negative scenarios are judged by accounting only (which sub-chords fire depends on press order by design)".into(),
+            "many scenarios run on one kanata instance separated by idle periods; a mismatch is re-judged on a fresh instance".into(),
+        ]
+    }
+    fn floors(&self, ctx: &Ctx) -> Vec<(&'static str, u64)> {
+        let _ = ctx;
+        vec![
+            ("v1_class_positive", 5_000),
+            ("v2_class_positive", 20_000),
+            ("v1_class_too-slow", 1_000),
+            ("v2_class_too-slow", 4_000),
+            ("v2_class_disabled-layer", 4_000),
+            ("v1_class_incomplete", 1_000),
+            ("v2_class_incomplete", 4_000),
+            ("v1_class_undefined-superset", 1_000),
+            ("v2_class_undefined-superset", 4_000),
+            ("v1_decompositions_with_sub_chord", 1_000),
+            ("random_chords_fired", 200),
+            ("parser_permuted_duplicate_sets", 10),
+        ]
+    }
+    fn exhaustive(&self, _ctx: &Ctx) -> bool {
+        true
     }
 }
